@@ -473,3 +473,42 @@ def _check_sum(ctx, ts, what):
     else:
         exp = sum(c.motp * c.tp for c in ts.clears if c.motp != float("inf")) / ntp
         ctx.require(abs(motp - exp) <= 1e-9 * (1 + abs(exp)), "sum-clear-motp", lambda: f"{what}MOTP {motp} vs TP-weighted mean {exp}")
+
+
+# ---- (c2) tracking2d through the manager (ROI objects, centre distance in px / IoU2D) -----------------
+
+
+def _tracking2d_cases(tier):
+    return MG.manager_cases2d(tier, tasks=("tracking2d",), max_frames=4)
+
+
+@CHECK.given("manager_tracking2d", _tracking2d_cases, quick=60, thorough=2500)
+def manager_tracking2d(ctx, d):
+    run = MG.run_case2d(ctx, d)
+    if run is None:
+        return
+    targets, pol = d["targets"], d["policy"]
+    results = run["results"]
+    for i, res in enumerate(results):
+        prev = results[i - 1].object_results if i > 0 else []
+        for ts in res.metrics_score.tracking_scores:
+            mode = ts.matching_mode.name
+            for L, clear in zip(targets, ts.clears):
+                thr = clear.matching_threshold_list[0]
+                ref = RC.accumulate([_ref_bucket(prev, L, targets, pol, mode, thr), _ref_bucket(res.object_results, L, targets, pol, mode, thr)])
+                _check_against_ref(ctx, clear, ref, clear.num_ground_truth, what=f"2D frame {i} {mode} {L}: ")
+            _check_sum(ctx, ts, f"2D frame {i} {mode}: ")
+    scene = None
+    with ctx.under_test("get_scene_result"):
+        scene = run["mgr"].get_scene_result()
+    nt = False
+    if scene is not None:
+        for ts in scene.tracking_scores:
+            mode = ts.matching_mode.name
+            for L, clear in zip(targets, ts.clears):
+                thr = clear.matching_threshold_list[0]
+                ref = RC.accumulate([[]] + [_ref_bucket(r.object_results, L, targets, pol, mode, thr) for r in results])
+                _check_against_ref(ctx, clear, ref, clear.num_ground_truth, what=f"2D scene {mode} {L}: ")
+                nt = nt or ref["n_eval"] >= 2
+            _check_sum(ctx, ts, f"2D scene {mode}: ")
+    ctx.mark_nontrivial(nt)
